@@ -483,7 +483,6 @@ namespace Kopf.C09
 
 structure Inv (c : Cfg) (s : St) : Prop where
   live : s.live = if s.run.isSome then 1 else 0
-  fz : s.forever = true → s.run = none
   inst : ∀ i, s.run = some i → InstInv c s.now i
 
 /-- the same instance, later: nothing is ever taken back -/
@@ -530,7 +529,7 @@ theorem Evolves.trans {a b d : St} (h1 : Evolves a b) (h2 : Evolves b d) : Evolv
 
 theorem endInst_inv {c : Cfg} {s : St} (h : Inv c s) {i : Inst} (hi : s.run = some i) (j : Inst) :
     Inv c (endInst s j) := by
-  refine ⟨?_, fun _ => rfl, ?_⟩
+  refine ⟨?_, ?_⟩
   · have := h.live
     simp [hi] at this
     simp [endInst, this]
@@ -558,9 +557,8 @@ theorem stopIf_spec {c : Cfg} {s : St} (h : Inv c s) {r : Reason} (hr : r.primar
       cases hspec with
       | alive i' d inv asked mono whenKept cancKept abanKept ksKept sinceKept =>
         simp only [applyOut]
-        refine ⟨⟨?_, ?_, ?_⟩, ⟨rfl, rfl, rfl, fun hf => hf, ?_, ?_, rfl, rfl⟩, ?_⟩
+        refine ⟨⟨?_, ?_⟩, ⟨rfl, rfl, rfl, fun hf => hf, ?_, ?_, rfl, rfl⟩, ?_⟩
         · have := h.live; simp [hrun] at this; simp [this]
-        · intro hf; have := h.fz hf; rw [hrun] at this; cases this
         · intro k hk; simp at hk; subst hk; exact inv
         · intro k hk; simp at hk; subst hk
           exact ⟨i, hrun, ⟨mono, whenKept, cancKept, abanKept, fun st hst => by rw [ksKept]; exact hst, sinceKept⟩, ksKept⟩
@@ -570,11 +568,10 @@ theorem stopIf_spec {c : Cfg} {s : St} (h : Inv c s) {r : Reason} (hr : r.primar
         simp only [applyOut]
         exact ⟨endInst_inv h hrun i', endInst_evolves hrun i', fun _ k hk => by simp [endInst] at hk⟩
 
-theorem spawn_inv {c : Cfg} {s : St} (h : Inv c s) (hrun : s.run = none) (hf : s.forever = false) :
+theorem spawn_inv {c : Cfg} {s : St} (h : Inv c s) (hrun : s.run = none) (_hf : s.forever = false) :
     Inv c (spawn s) := by
-  refine ⟨?_, ?_, ?_⟩
+  refine ⟨?_, ?_⟩
   · have := h.live; simp [hrun] at this; simp [spawn, this]
-  · intro hf'; simp [spawn, hf] at hf'
   · intro i hi; simp [spawn] at hi; subst hi; exact InstInv.fresh c _ _
 
 /-- What one processing cycle does to this handler id. -/
@@ -592,7 +589,7 @@ theorem cycle_spec {c : Cfg} {s : St} (h : Inv c s) (inp : CycIn) :
   have hk : ∀ (b : Bool), Inv c (if b then { s with known := false } else s) := by
     intro b; cases b
     · exact h
-    · exact ⟨h.live, h.fz, h.inst⟩
+    · exact ⟨h.live, h.inst⟩
   generalize hs0 : (if inp.deleted = true then { s with known := false } else s) = s0
   have h0 : Inv c s0 := hs0 ▸ hk inp.deleted
   have e0 : s0.now = s.now ∧ s0.run = s.run ∧ s0.forever = s.forever ∧ s0.spawns = s.spawns ∧
@@ -687,7 +684,7 @@ theorem cycle_frame {c : Cfg} {s : St} (h : Inv c s) (inp : CycIn) :
   have hk : ∀ (b : Bool), Inv c (if b then { s with known := false } else s) := by
     intro b; cases b
     · exact h
-    · exact ⟨h.live, h.fz, h.inst⟩
+    · exact ⟨h.live, h.inst⟩
   generalize hs0 : (if inp.deleted = true then { s with known := false } else s) = s0
   have h0 : Inv c s0 := hs0 ▸ hk inp.deleted
   have e0 : s0.now = s.now ∧ s0.run = s.run ∧ s0.paused = s.paused ∧ s0.killerDone = s.killerDone := by
@@ -762,16 +759,15 @@ namespace Kopf.C09
 /-! ### Every label keeps the invariant -/
 
 theorem init_inv (c : Cfg) (t0 : Tick) : Inv c (St.init t0) := by
-  refine ⟨rfl, ?_, ?_⟩
-  · intro h; simp [St.init] at h
-  · intro i h; simp [St.init] at h
+  refine ⟨rfl, ?_⟩
+  intro i h; simp [St.init] at h
 
 /-! ### What each label does (inversion of `step`) -/
 
 /-- labels that touch neither the instance nor the memory: time, the pause toggle, the killer leaving -/
 structure Frame (s s' : St) : Prop where
   run : s'.run = s.run
-  forever : s'.forever = s.forever
+  forever : s.forever = true → s'.forever = true
   known : s'.known = s.known
   live : s'.live = s.live
   spawns : s'.spawns = s.spawns
@@ -801,6 +797,13 @@ theorem step_resume {c : Cfg} {s s' : St} (hs : step c s .resume = some s') : s'
 
 theorem step_kFinal {c : Cfg} {s s' : St} (hs : step c s .kFinal = some s') : s' = { s with killerDone := true } := by
   simp only [step, Option.some.injEq] at hs; exact hs.symm
+
+theorem step_failForGood {c : Cfg} {s s' : St} (hs : step c s .failForGood = some s') :
+    s' = { s with forever := true } ∧ s.run.isSome = true := by
+  simp only [step] at hs
+  split at hs
+  · rename_i hok; cases hs; exact ⟨rfl, hok⟩
+  · cases hs
 
 theorem step_cycle {c : Cfg} {s s' : St} {inp : CycIn} (hs : step c s (.cycle inp) = some s') :
     s' = (cycle c inp s).1 ∧ s.known = true := by
@@ -881,26 +884,25 @@ theorem step_kAbandon {c : Cfg} {s s' : St} {st : Tick} (hs : step c s (.kAbando
 
 /-- the four frame labels -/
 theorem step_frame {c : Cfg} {s s' : St} (l : Label) (hs : step c s l = some s')
-    (hl : (∃ d, l = .tick d) ∨ l = .pause ∨ l = .resume ∨ l = .kFinal) : Frame s s' := by
-  rcases hl with ⟨d, rfl⟩ | rfl | rfl | rfl
+    (hl : (∃ d, l = .tick d) ∨ l = .pause ∨ l = .resume ∨ l = .kFinal ∨ l = .failForGood) : Frame s s' := by
+  rcases hl with ⟨d, rfl⟩ | rfl | rfl | rfl | rfl
   · obtain ⟨h1, _⟩ := step_tick hs; subst h1
-    exact ⟨rfl, rfl, rfl, rfl, rfl, Int.le_add_of_nonneg_right (Int.natCast_nonneg d)⟩
-  · obtain ⟨h1, _⟩ := step_pause hs; subst h1; exact ⟨rfl, rfl, rfl, rfl, rfl, Int.le_refl _⟩
-  · have h1 := step_resume hs; subst h1; exact ⟨rfl, rfl, rfl, rfl, rfl, Int.le_refl _⟩
-  · have h1 := step_kFinal hs; subst h1; exact ⟨rfl, rfl, rfl, rfl, rfl, Int.le_refl _⟩
+    exact ⟨rfl, fun h => h, rfl, rfl, rfl, Int.le_add_of_nonneg_right (Int.natCast_nonneg d)⟩
+  · obtain ⟨h1, _⟩ := step_pause hs; subst h1; exact ⟨rfl, fun h => h, rfl, rfl, rfl, Int.le_refl _⟩
+  · have h1 := step_resume hs; subst h1; exact ⟨rfl, fun h => h, rfl, rfl, rfl, Int.le_refl _⟩
+  · have h1 := step_kFinal hs; subst h1; exact ⟨rfl, fun h => h, rfl, rfl, rfl, Int.le_refl _⟩
+  · obtain ⟨h1, _⟩ := step_failForGood hs; subst h1; exact ⟨rfl, fun _ => rfl, rfl, rfl, rfl, Int.le_refl _⟩
 
 theorem frame_inv {c : Cfg} {s s' : St} (h : Inv c s) (f : Frame s s') : Inv c s' := by
-  refine ⟨?_, ?_, ?_⟩
+  refine ⟨?_, ?_⟩
   · rw [f.live, f.run]; exact h.live
-  · intro hf; rw [f.run]; exact h.fz (f.forever ▸ hf)
   · intro i hi; rw [f.run] at hi; exact (h.inst i hi).mono f.now
 
 /-- an update of the running instance that keeps the invariant keeps the state invariant -/
 theorem inst_update_inv {c : Cfg} {s : St} (h : Inv c s) {i j : Inst} (hi : s.run = some i)
     (hj : InstInv c s.now j) : Inv c { s with run := some j } := by
-  refine ⟨?_, ?_, ?_⟩
+  refine ⟨?_, ?_⟩
   · have := h.live; simp [hi] at this; simp [this]
-  · intro hf; have := h.fz hf; rw [hi] at this; cases this
   · intro k hk; simp at hk; subst hk; exact hj
 
 /-! ### Every label keeps the invariant -/
@@ -910,7 +912,8 @@ theorem step_inv {c : Cfg} {s s' : St} (h : Inv c s) (l : Label) (hs : step c s 
   | tick d => exact frame_inv h (step_frame _ hs (Or.inl ⟨d, rfl⟩))
   | pause => exact frame_inv h (step_frame _ hs (Or.inr (Or.inl rfl)))
   | resume => exact frame_inv h (step_frame _ hs (Or.inr (Or.inr (Or.inl rfl))))
-  | kFinal => exact frame_inv h (step_frame _ hs (Or.inr (Or.inr (Or.inr rfl))))
+  | kFinal => exact frame_inv h (step_frame _ hs (Or.inr (Or.inr (Or.inr (Or.inl rfl)))))
+  | failForGood => exact frame_inv h (step_frame _ hs (Or.inr (Or.inr (Or.inr (Or.inr rfl)))))
   | cycle inp => obtain ⟨h1, _⟩ := step_cycle hs; subst h1; exact (cycle_spec h inp).1
   | exit => obtain ⟨i, hi, h1⟩ := step_exit hs; subst h1; exact endInst_inv h hi i
   | kBegin r =>
@@ -989,7 +992,8 @@ theorem step_mono {c : Cfg} {s s' : St} (h : Inv c s) (l : Label) (hs : step c s
   | tick d => have f := step_frame _ hs (Or.inl ⟨d, rfl⟩); rw [f.run, hi] at hi'; cases hi'; exact Mono.refl i
   | pause => have f := step_frame _ hs (Or.inr (Or.inl rfl)); rw [f.run, hi] at hi'; cases hi'; exact Mono.refl i
   | resume => have f := step_frame _ hs (Or.inr (Or.inr (Or.inl rfl))); rw [f.run, hi] at hi'; cases hi'; exact Mono.refl i
-  | kFinal => have f := step_frame _ hs (Or.inr (Or.inr (Or.inr rfl))); rw [f.run, hi] at hi'; cases hi'; exact Mono.refl i
+  | kFinal => have f := step_frame _ hs (Or.inr (Or.inr (Or.inr (Or.inl rfl)))); rw [f.run, hi] at hi'; cases hi'; exact Mono.refl i
+  | failForGood => have f := step_frame _ hs (Or.inr (Or.inr (Or.inr (Or.inr rfl)))); rw [f.run, hi] at hi'; cases hi'; exact Mono.refl i
   | cycle inp => obtain ⟨h1, _⟩ := step_cycle hs; subst h1; exact (cycle_spec h inp).2.2.2.2.2.1 i i' hi hi'
   | exit => obtain ⟨j, _, h1⟩ := step_exit hs; subst h1; simp [endInst] at hi'
   | kBegin r =>
@@ -1024,7 +1028,8 @@ theorem step_spawns {c : Cfg} {s s' : St} (h : Inv c s) (l : Label) (hs : step c
   | tick d => simp [(step_frame _ hs (Or.inl ⟨d, rfl⟩)).spawns]
   | pause => simp [(step_frame _ hs (Or.inr (Or.inl rfl))).spawns]
   | resume => simp [(step_frame _ hs (Or.inr (Or.inr (Or.inl rfl)))).spawns]
-  | kFinal => simp [(step_frame _ hs (Or.inr (Or.inr (Or.inr rfl)))).spawns]
+  | kFinal => simp [(step_frame _ hs (Or.inr (Or.inr (Or.inr (Or.inl rfl))))).spawns]
+  | failForGood => simp [(step_frame _ hs (Or.inr (Or.inr (Or.inr (Or.inr rfl))))).spawns]
   | cycle inp => obtain ⟨h1, _⟩ := step_cycle hs; subst h1; exact (cycle_spec h inp).2.2.2.2.1
   | exit => obtain ⟨j, _, h1⟩ := step_exit hs; subst h1; simp [endInst]
   | kBegin r => obtain ⟨j, _, _, _, _, _, h1⟩ := step_kBegin hs; subst h1; simp
@@ -1034,28 +1039,64 @@ theorem step_spawns {c : Cfg} {s s' : St} (h : Inv c s) (l : Label) (hs : step c
 
 theorem step_forever {c : Cfg} {s s' : St} (h : Inv c s) (l : Label) (hs : step c s l = some s')
     (hf : s.forever = true) : s'.forever = true := by
-  have hn := h.fz hf
   cases l with
-  | tick d => rw [(step_frame _ hs (Or.inl ⟨d, rfl⟩)).forever]; exact hf
-  | pause => rw [(step_frame _ hs (Or.inr (Or.inl rfl))).forever]; exact hf
-  | resume => rw [(step_frame _ hs (Or.inr (Or.inr (Or.inl rfl)))).forever]; exact hf
-  | kFinal => rw [(step_frame _ hs (Or.inr (Or.inr (Or.inr rfl)))).forever]; exact hf
+  | tick d => exact (step_frame _ hs (Or.inl ⟨d, rfl⟩)).forever hf
+  | pause => exact (step_frame _ hs (Or.inr (Or.inl rfl))).forever hf
+  | resume => exact (step_frame _ hs (Or.inr (Or.inr (Or.inl rfl)))).forever hf
+  | kFinal => exact (step_frame _ hs (Or.inr (Or.inr (Or.inr (Or.inl rfl))))).forever hf
+  | failForGood => exact (step_frame _ hs (Or.inr (Or.inr (Or.inr (Or.inr rfl))))).forever hf
   | cycle inp => obtain ⟨h1, _⟩ := step_cycle hs; subst h1; exact (cycle_spec h inp).2.2.1 hf
+  | exit => obtain ⟨j, _, h1⟩ := step_exit hs; subst h1; simp [endInst, hf]
+  | kBegin r => obtain ⟨j, _, _, _, _, _, h1⟩ := step_kBegin hs; subst h1; exact hf
+  | kSignal st => obtain ⟨j, _, _, h1⟩ := step_kSignal hs; subst h1; exact hf
+  | kCancel st => obtain ⟨j, _, _, _, _, h1⟩ := step_kCancel hs; subst h1; exact hf
+  | kAbandon st => obtain ⟨j, _, _, _, h1⟩ := step_kAbandon hs; subst h1; exact hf
+
+theorem cycle_run_none (c : Cfg) (inp : CycIn) (s : St) (hn : s.run = none)
+    (hc : (!inp.marked && inp.matching && !s.forever) = false) : (cycle c inp s).1.run = none := by
+  unfold cycle stopIf
+  cases hd : inp.deleted <;> cases hm : inp.marked <;> cases hma : inp.matching <;> cases hf : s.forever <;>
+    simp_all
+
+/-- the instance does not come back without a spawn -/
+theorem step_run_none {c : Cfg} {s s' : St} (h : Inv c s) (l : Label) (hs : step c s l = some s')
+    (hn : s.run = none) (hsp : s'.spawns = s.spawns) : s'.run = none := by
+  cases l with
+  | tick d => rw [(step_frame _ hs (Or.inl ⟨d, rfl⟩)).run]; exact hn
+  | pause => rw [(step_frame _ hs (Or.inr (Or.inl rfl))).run]; exact hn
+  | resume => rw [(step_frame _ hs (Or.inr (Or.inr (Or.inl rfl)))).run]; exact hn
+  | kFinal => rw [(step_frame _ hs (Or.inr (Or.inr (Or.inr (Or.inl rfl))))).run]; exact hn
+  | failForGood => rw [(step_frame _ hs (Or.inr (Or.inr (Or.inr (Or.inr rfl))))).run]; exact hn
+  | cycle inp =>
+    obtain ⟨h1, _⟩ := step_cycle hs
+    subst h1
+    cases hr : (cycle c inp s).1.run with
+    | none => rfl
+    | some i' =>
+      exfalso
+      -- an instance out of nothing is a spawn
+      have hsp' := (cycle_spec h inp).2.2.2.2.1
+      rw [hsp] at hsp'
+      by_cases hc : (!inp.marked && inp.matching && !s.forever && s.run.isNone) = true
+      · simp [hc] at hsp'
+      · -- no spawn: the cycle only stops what runs, and nothing runs
+        have hc' : (!inp.marked && inp.matching && !s.forever) = false := by
+          simpa [hn] using hc
+        rw [cycle_run_none c inp s hn hc'] at hr; cases hr
   | exit => obtain ⟨j, hj, _⟩ := step_exit hs; rw [hn] at hj; cases hj
   | kBegin r => obtain ⟨j, hj, _⟩ := step_kBegin hs; rw [hn] at hj; cases hj
   | kSignal st => obtain ⟨j, hj, _⟩ := step_kSignal hs; rw [hn] at hj; cases hj
   | kCancel st => obtain ⟨j, hj, _⟩ := step_kCancel hs; rw [hn] at hj; cases hj
   | kAbandon st => obtain ⟨j, hj, _⟩ := step_kAbandon hs; rw [hn] at hj; cases hj
 
-/-- Once in `forever_stopped`: no instance, and never a spawn again. -/
+/-- Once in `forever_stopped`: never a spawn again; and if nothing runs, nothing ever runs again. -/
 theorem runs_forever {c : Cfg} : ∀ (ls : List Label) {s s' : St}, Inv c s → s.forever = true →
-    runs c s ls = some s' → s'.forever = true ∧ s'.spawns = s.spawns ∧ s'.run = none ∧ s'.live = 0
+    runs c s ls = some s' → s'.forever = true ∧ s'.spawns = s.spawns ∧ (s.run = none → s'.run = none ∧ s'.live = 0)
   | [], s, s', h, hf, hr => by
     simp only [runs, Option.some.injEq] at hr; subst hr
-    have hn := h.fz hf
+    refine ⟨hf, rfl, fun hn => ⟨hn, ?_⟩⟩
     have hl := h.live
-    simp [hn] at hl
-    exact ⟨hf, rfl, hn, hl⟩
+    simpa [hn] using hl
   | l :: ls, s, s', h, hf, hr => by
     simp only [runs] at hr
     cases hst : step c s l with
@@ -1064,10 +1105,11 @@ theorem runs_forever {c : Cfg} : ∀ (ls : List Label) {s s' : St}, Inv c s → 
       rw [hst] at hr
       have h1 := step_inv h l hst
       have hf1 := step_forever h l hst hf
-      obtain ⟨a, b, d, e⟩ := runs_forever ls h1 hf1 hr
-      refine ⟨a, ?_, d, e⟩
-      rw [b, step_spawns h l hst]
-      cases l <;> simp [hf]
+      obtain ⟨a, b, d⟩ := runs_forever ls h1 hf1 hr
+      have hsp : s1.spawns = s.spawns := by
+        rw [step_spawns h l hst]
+        cases l <;> simp [hf]
+      exact ⟨a, b.trans hsp, fun hn => d (step_run_none h l hst hn hsp)⟩
 
 /-! ### The unmarked disappearance: nobody ever asks the instance to stop -/
 
@@ -1078,7 +1120,8 @@ theorem orphan_step {c : Cfg} {s s' : St} (ho : Orphan s) (l : Label) (hs : step
   | tick d => exact frame (step_frame _ hs (Or.inl ⟨d, rfl⟩))
   | pause => exact frame (step_frame _ hs (Or.inr (Or.inl rfl)))
   | resume => exact frame (step_frame _ hs (Or.inr (Or.inr (Or.inl rfl))))
-  | kFinal => exact frame (step_frame _ hs (Or.inr (Or.inr (Or.inr rfl))))
+  | kFinal => exact frame (step_frame _ hs (Or.inr (Or.inr (Or.inr (Or.inl rfl)))))
+  | failForGood => exact frame (step_frame _ hs (Or.inr (Or.inr (Or.inr (Or.inr rfl)))))
   | cycle inp => obtain ⟨_, hkk⟩ := step_cycle hs; rw [hk] at hkk; cases hkk
   | exit => obtain ⟨j, _, h1⟩ := step_exit hs; subst h1; exact ⟨hk, fun k hk' => by simp [endInst] at hk'⟩
   | kBegin r => obtain ⟨j, _, hkk, _⟩ := step_kBegin hs; rw [hk] at hkk; cases hkk
